@@ -255,17 +255,17 @@ func genRouteCase(w *wire.World, g *sip.Gen, i int) *routeCase {
 		case 0:
 			return routeEntry(g, sv.IP, myPort, "", true), "own:addr"
 		case 1:
-			return routeEntry(g, fmt.Sprintf("alias%d.verif.test", sidx), myPort, "", true), "own:alias"
+			return routeEntry(g, wire.AliasName(sidx), myPort, "", true), "own:alias"
 		case 2:
 			if myPort == 5060 {
-				return routeEntry(g, fmt.Sprintf("alias%d.verif.test", sidx), 0, "", true), "own:alias-noport"
+				return routeEntry(g, wire.AliasName(sidx), 0, "", true), "own:alias-noport"
 			}
 			return routeEntry(g, sv.IP, myPort, "", false), "own:addr"
 		default:
 			if myPort == 5060 {
 				return routeEntry(g, sv.IP, 0, "", true), "own:addr-noport"
 			}
-			return routeEntry(g, fmt.Sprintf("alias%d.verif.test", sidx), myPort, "", false), "own:alias"
+			return routeEntry(g, wire.AliasName(sidx), myPort, "", false), "own:alias"
 		}
 	}
 	nextEntry := func() (wire.RouteEntry, string) {
@@ -291,7 +291,7 @@ func genRouteCase(w *wire.World, g *sip.Gen, i int) *routeCase {
 		case 0: // right host, wrong port
 			return routeEntry(g, sv.IP, myPort+1, "", false), "miss:wrong-port"
 		case 1: // alias, wrong port
-			return routeEntry(g, fmt.Sprintf("alias%d.verif.test", sidx), 5999, "", false), "miss:alias-wrong-port"
+			return routeEntry(g, wire.AliasName(sidx), 5999, "", false), "miss:alias-wrong-port"
 		case 2: // listener of another service (right port there)
 			o := w.Svcs[(sidx+1)%len(w.Svcs)]
 			tr := ""
@@ -395,7 +395,10 @@ func genRouteCase(w *wire.World, g *sip.Gen, i int) *routeCase {
 	// --- Request-URI
 	var ruri string
 	rhost, rport, rtr := "", 0, ""
-	switch g.R.Intn(10) {
+	switch g.R.Intn(11) {
+	case 10:
+		ruri = []string{fmt.Sprintf("sip:*69@pbx%d.verif.test", sidx), fmt.Sprintf("sip:+1800555%d@ims.verif.test", sidx)}[g.R.Intn(2)]
+		cell = append(cell, "ruri:literal-that-is-no-regexp")
 	case 0:
 		ruri = fmt.Sprintf("sip:svc%d.verif.test", sidx)
 		cell = append(cell, "ruri:service-host")
